@@ -1456,9 +1456,9 @@ def parse_pubkey(pubkey):
 
 
 def ecdsa_verify(point, z, r, s):
-    """plain ECDSA verification; like libsecp256k1's secp256k1_ecdsa_verify it REJECTS high-S signatures unless they
-    were normalised first -- CPubKey::Verify normalises (secp256k1_ecdsa_signature_normalize) before verifying, so
-    both s and n-s verify; this function therefore accepts any 1 <= s < n."""
+    """plain ECDSA verification for any 1 <= r, s < n.  (libsecp256k1's verify rejects high-S signatures, but
+    CPubKey::Verify first normalises the signature with secp256k1_ecdsa_signature_normalize, so for consensus both
+    s and n-s verify; high S is only rejected by the LOW_S *encoding* rule.)"""
     if not (1 <= r < _N and 1 <= s < _N):
         return False
     w = pow(s, _N - 2, _N)
